@@ -660,7 +660,9 @@ def build_class(cdef, interp):
             for k, v in body_env.items():
                 if k not in before or before[k] is not v:
                     if k not in ns or not isinstance(ns[k], _Method):
-                        ns[k] = v
+                        # `encode_bb_output = encode_input`: a function bound to a second name in the class body is a method under that name too
+                        own_method = next((m_ for m_ in ns.values() if isinstance(m_, _Method) and m_.clo is v), None)
+                        ns[k] = own_method if own_method is not None else v
             before = dict(body_env)
             continue
         if isinstance(st, ast.ClassDef):
